@@ -4,7 +4,7 @@ import importlib.util, importlib.machinery
 loader=importlib.machinery.SourceFileLoader('chk','/verif/check'); spec=importlib.util.spec_from_loader('chk',loader); chk=importlib.util.module_from_spec(spec); loader.exec_module(chk)
 suite=argv0[1] if len(argv0)>1 else os.environ['SUITE']
 with chk.Lock():
-    print(chk.prepare())
+    print(chk.prepare(need_race=True, need_sched=True))
     r=chk.run_suite(suite,'quick',1)
 print('error',(r.get('error') or '')[:3000]); cols=chk.SUITES[suite]['cols']
 cnt=collections.Counter()
